@@ -249,3 +249,38 @@ def bidirectional_accumulates(O):
     if n == 0:
         O.inconclusive("vacuous: File::parse never returns")
     O.note("%d paths (%s)" % (eng.npaths, eng.outcomes))
+
+
+@obligation("C16/default-value-parse", desc="extract_input_data and its closures: the `v` attribute of an InDefault entry is parsed "
+            "as i64 (the type of input values) by str::parse - the one conversion, straight into InputValue::Value - so every "
+            "default a 64-bit signal can have, negative ones included, is kept (type facts read from the MIR call sites)")
+def default_value_parse(O):
+    import re
+    m = O.mir
+    R = rep()
+    fns = [(n, f) for n, f in m.funcs.items() if re.search(r"(^|::)extract_input_data(::\{closure#\d+\})*$", n)]
+    if not fns:
+        O.inconclusive("extract_input_data not found")
+        return
+    parses = []
+    casts = []
+    for n, f in fns:
+        O.rec["functions"][n.split("dig::")[-1]] = f.text_hash
+        for bb, (stmts, term) in f.blocks.items():
+            if term and term[0] == "call" and re.search(r"str>::parse::<|FromStr>::from_str", str(term[2])):
+                mm = re.search(r"parse::<([^>]*)>", str(term[2])) or re.search(r"<(\w+) as FromStr>", str(term[2]))
+                parses.append((n, mm.group(1) if mm else "?"))
+            for st in stmts:
+                if st[0] == "assign" and st[2][0] == "cast" and "IntToInt" in str(st[2]):
+                    casts.append((n, str(st[2])[:80]))
+    O.rec["paths"] += len(fns)
+    bad = []
+    if len(parses) != 1:
+        bad.append("the default value goes through %d parse calls (%s)" % (len(parses), parses))
+    elif parses[0][1].strip() != "i64":
+        bad.append("the default value is parsed as %s, not as i64" % parses[0][1])
+    if casts:
+        bad.append("the parsed default is converted between integer types (%s)" % casts[0][1])
+    for b_ in bad:
+        O.violation(b_, None, dict(R.facts, what=b_[:80]), R.battery, R.judge, b_)
+    O.note("parse calls: %s" % parses)
